@@ -46,8 +46,8 @@ type SvcSpec struct {
 	Dest    string   `json:"dest"`
 	Port    int      `json:"port"`
 	Ups     []string `json:"ups"`
-	Weights bool     `json:"weights"` // request carries explicit default weights (as agents do)
-	Index   uint64   `json:"index"`   // supplied ModifyIndex (txn cas verbs)
+	Weights bool     `json:"weights"`           // request carries explicit default weights (as agents do)
+	Index   uint64   `json:"index"`             // supplied ModifyIndex (txn cas verbs)
 	TagVIP  int      `json:"tag_vip,omitempty"` // k > 0: the request itself carries TaggedAddresses["consul-virtual"] = 240.0.0.k (wide stream only)
 }
 
@@ -176,36 +176,36 @@ type TopoRow struct {
 	Refs []string `json:"refs"`
 }
 type Dump struct {
-	Nodes     []NodeRow    `json:"nodes"`
-	Services  []SvcRow     `json:"services"`
-	Checks    []CheckRow   `json:"checks"`
-	Coords    []string     `json:"coords"`
-	Confs     []ConfRow    `json:"confs"`
-	KindNames [][2]string  `json:"kindnames"`
-	Usage     [][2]string  `json:"usage"` // id, count  (zero counts dropped)
-	VIPs      []VIPRow     `json:"vips"`
-	Free      []FreeRow    `json:"free"`
-	GWS       []GSRow      `json:"gws"`
-	Topo      []TopoRow    `json:"topo"`
-	VIPsOn    bool         `json:"vips_on"`
-	Other     [][2]string  `json:"-"`
+	Nodes     []NodeRow   `json:"nodes"`
+	Services  []SvcRow    `json:"services"`
+	Checks    []CheckRow  `json:"checks"`
+	Coords    []string    `json:"coords"`
+	Confs     []ConfRow   `json:"confs"`
+	KindNames [][2]string `json:"kindnames"`
+	Usage     [][2]string `json:"usage"` // id, count  (zero counts dropped)
+	VIPs      []VIPRow    `json:"vips"`
+	Free      []FreeRow   `json:"free"`
+	GWS       []GSRow     `json:"gws"`
+	Topo      []TopoRow   `json:"topo"`
+	VIPsOn    bool        `json:"vips_on"`
+	Other     [][2]string `json:"-"`
 }
 
 type Res struct {
-	Kind  string `json:"kind"` // nil bool err txn-ok txn-err manual
-	Bool  bool   `json:"bool,omitempty"`
-	Err   string `json:"err,omitempty"`
-	Msg   string `json:"msg,omitempty"`
-	Op    int    `json:"op,omitempty"`    // txn-err: first failing op
-	Found bool   `json:"found,omitempty"` // manual
-	From  []string `json:"from,omitempty"` // manual: unassigned from (sorted)
+	Kind  string   `json:"kind"` // nil bool err txn-ok txn-err manual
+	Bool  bool     `json:"bool,omitempty"`
+	Err   string   `json:"err,omitempty"`
+	Msg   string   `json:"msg,omitempty"`
+	Op    int      `json:"op,omitempty"`    // txn-err: first failing op
+	Found bool     `json:"found,omitempty"` // manual
+	From  []string `json:"from,omitempty"`  // manual: unassigned from (sorted)
 }
 
 type OracleFail struct {
 	Step int    `json:"step"`
-	Kind string `json:"kind"`   // orphan kindnames usage gateway-services topology vip-unique vip-advertised ...
-	Sub  string `json:"sub"`    // structured sub-class
-	What string `json:"what"`   // human detail
+	Kind string `json:"kind"` // orphan kindnames usage gateway-services topology vip-unique vip-advertised ...
+	Sub  string `json:"sub"`  // structured sub-class
+	What string `json:"what"` // human detail
 	// Cause: the known class of histories the failure belongs to ("" = none: the failure is in a
 	// history outside every excluded class); computed from the real dumps, not from the model
 	Cause string `json:"cause"`
@@ -215,15 +215,15 @@ type OracleFail struct {
 }
 
 type History struct {
-	ID      int          `json:"id"`
-	Mix     string       `json:"mix"`
-	Model   bool         `json:"model"` // inside the modelled fragment: compared with the Coq model
-	Cmds    []Cmd        `json:"cmds"`
-	Results []Res        `json:"results"`
-	Final   Dump         `json:"final"`
-	Oracle  []OracleFail `json:"oracle"`
-	Shrunk  []Cmd        `json:"shrunk,omitempty"`
-	Stats   map[string]int `json:"stats,omitempty"`
+	ID      int             `json:"id"`
+	Mix     string          `json:"mix"`
+	Model   bool            `json:"model"` // inside the modelled fragment: compared with the Coq model
+	Cmds    []Cmd           `json:"cmds"`
+	Results []Res           `json:"results"`
+	Final   Dump            `json:"final"`
+	Oracle  []OracleFail    `json:"oracle"`
+	Shrunk  []Cmd           `json:"shrunk,omitempty"`
+	Stats   map[string]int  `json:"stats,omitempty"`
 	Flags   map[string]bool `json:"flags,omitempty"`
 }
 
@@ -247,7 +247,7 @@ var (
 // keys nodes, service ids and service names by their lower-cased form but stores them as given).
 type universe struct {
 	nodes, svcIDs, plain, tgw, igw []string
-	ext                          string
+	ext                            string
 }
 
 var (
@@ -621,7 +621,9 @@ func (im *impl) dump() Dump {
 		}
 		return true
 	})
-	sort.Slice(d.Nodes, func(i, j int) bool { return d.Nodes[i].Peer+"\x00"+d.Nodes[i].Name < d.Nodes[j].Peer+"\x00"+d.Nodes[j].Name })
+	sort.Slice(d.Nodes, func(i, j int) bool {
+		return d.Nodes[i].Peer+"\x00"+d.Nodes[i].Name < d.Nodes[j].Peer+"\x00"+d.Nodes[j].Name
+	})
 	sort.Slice(d.Services, func(i, j int) bool {
 		return d.Services[i].Peer+"\x00"+d.Services[i].Node+"\x00"+d.Services[i].ID < d.Services[j].Peer+"\x00"+d.Services[j].Node+"\x00"+d.Services[j].ID
 	})
@@ -629,12 +631,16 @@ func (im *impl) dump() Dump {
 		return d.Checks[i].Peer+"\x00"+d.Checks[i].Node+"\x00"+d.Checks[i].ID < d.Checks[j].Peer+"\x00"+d.Checks[j].Node+"\x00"+d.Checks[j].ID
 	})
 	sort.Strings(d.Coords)
-	sort.Slice(d.Confs, func(i, j int) bool { return d.Confs[i].Kind+"\x00"+d.Confs[i].Name < d.Confs[j].Kind+"\x00"+d.Confs[j].Name })
+	sort.Slice(d.Confs, func(i, j int) bool {
+		return d.Confs[i].Kind+"\x00"+d.Confs[i].Name < d.Confs[j].Kind+"\x00"+d.Confs[j].Name
+	})
 	sort.Slice(d.KindNames, func(i, j int) bool {
 		return d.KindNames[i][0]+"\x00"+d.KindNames[i][1] < d.KindNames[j][0]+"\x00"+d.KindNames[j][1]
 	})
 	sort.Slice(d.Usage, func(i, j int) bool { return d.Usage[i][0] < d.Usage[j][0] })
-	sort.Slice(d.VIPs, func(i, j int) bool { return d.VIPs[i].Peer+"\x00"+d.VIPs[i].Service < d.VIPs[j].Peer+"\x00"+d.VIPs[j].Service })
+	sort.Slice(d.VIPs, func(i, j int) bool {
+		return d.VIPs[i].Peer+"\x00"+d.VIPs[i].Service < d.VIPs[j].Peer+"\x00"+d.VIPs[j].Service
+	})
 	sort.Slice(d.Free, func(i, j int) bool { return d.Free[i].IP < d.Free[j].IP })
 	gk := func(g GSRow) string { return fmt.Sprintf("%s\x00%s\x00%08d", g.Gateway, g.Service, g.Port) }
 	sort.Slice(d.GWS, func(i, j int) bool { return gk(d.GWS[i]) < gk(d.GWS[j]) })
@@ -942,7 +948,9 @@ func localView(d *Dump) *Dump {
 func (im *impl) oracle(step int, all *Dump) []OracleFail {
 	d := localView(all)
 	var out []OracleFail
-	fail := func(kind, sub, what string) { out = append(out, OracleFail{Step: step, Kind: kind, Sub: sub, What: what}) }
+	fail := func(kind, sub, what string) {
+		out = append(out, OracleFail{Step: step, Kind: kind, Sub: sub, What: what})
+	}
 	failRows := func(kind, sub, what string, rows []string) {
 		sort.Strings(rows)
 		out = append(out, OracleFail{Step: step, Kind: kind, Sub: sub, What: what, Rows: rows})
@@ -1457,21 +1465,20 @@ func unionKeys(a, b map[string]int) []string {
 	return out
 }
 
-
 // ---------------------------------------------------------------- history classes (for structured signatures)
 
 // tracker follows, on the real dumps, the few facts about a history that delimit the classes of
 // histories on which the unchanged code is known to deviate (known_findings.json).
 type tracker struct {
-	flags map[string]bool // classes of the history (reported in the evidence; not used for attribution any more, except two)
+	flags map[string]bool   // classes of the history (reported in the evidence; not used for attribution any more, except two)
 	stale map[string]uint64 // instances (node/id -> modify index) whose advertised virtual IP lost its assignment while they stayed
 	// the recorded events an oracle failure must match ROW BY ROW to be attributed to an open finding:
-	oldPairs     map[string]bool // "kind|name", "connect-enabled|n" of the OLD definition of an instance redefined in place
-	oldNames     map[string]bool // names (own name, connect name) of such old definitions
-	droppedPairs map[string]bool // "up|down": an instance stopped listing up while updateMeshTopology ran with destination down
-	staleRefs    map[string]bool // "up|down#node/id": a pair of the OLD definition of an instance redefined in place
-	seenGW       map[string]bool // gateway-services rows seen since the last write of their gateway's config entry
-	imported     map[string]bool // names for which a connect instance IMPORTED from a peer was registered
+	oldPairs     map[string]bool   // "kind|name", "connect-enabled|n" of the OLD definition of an instance redefined in place
+	oldNames     map[string]bool   // names (own name, connect name) of such old definitions
+	droppedPairs map[string]bool   // "up|down": an instance stopped listing up while updateMeshTopology ran with destination down
+	staleRefs    map[string]bool   // "up|down#node/id": a pair of the OLD definition of an instance redefined in place
+	seenGW       map[string]bool   // gateway-services rows seen since the last write of their gateway's config entry
+	imported     map[string]bool   // names for which a connect instance IMPORTED from a peer was registered
 	destWithInst map[string]bool   // names that were a service-defaults destination while they had instances (wide stream only)
 	droppedDest  map[string]bool   // names whose service-defaults entry lost its Destination by an update
 	clientVIP    map[string]bool   // ":node/id" of local instances whose last successful write carried its own consul-virtual tagged address
@@ -1643,7 +1650,7 @@ func (t *tracker) observeCmd(c *Cmd, before *Dump) {
 	}
 	type def struct {
 		name, kind, dest string
-		native          bool
+		native           bool
 	}
 	cur := map[string]def{}
 	ups := map[string][]string{}
@@ -1942,14 +1949,15 @@ func (t *tracker) cause(f *OracleFail) string {
 // ---------------------------------------------------------------- generator
 
 type gen struct {
-	rng   *rand.Rand
-	im    *impl
-	idx   uint64
-	mix   string
-	model bool // stay inside the modelled fragment
-	wide  bool   // the wide stream: virtual-IP flag toggled mid-history, destinations that also have instances, manual addresses inside 240.0.0.0/4, requests with their own consul-virtual address
-	peers bool   // the peer stream: some registrations / deregistrations carry a peer name (imported rows)
-	peer  string // the peer of the command being generated ("" = local)
+	rng      *rand.Rand
+	im       *impl
+	idx      uint64
+	mix      string
+	model    bool   // stay inside the modelled fragment
+	destInst bool   // one model-compared history in four: destinations whose names also have instances, the virtual-ips flag toggled mid-history
+	wide     bool   // the wide stream: virtual-IP flag toggled mid-history, destinations that also have instances, manual addresses inside 240.0.0.0/4, requests with their own consul-virtual address
+	peers    bool   // the peer stream: some registrations / deregistrations carry a peer name (imported rows)
+	peer     string // the peer of the command being generated ("" = local)
 }
 
 func (g *gen) pick(xs []string) string { return xs[g.rng.Intn(len(xs))] }
@@ -2080,7 +2088,7 @@ func (g *gen) svcSpec(node string) *SvcSpec {
 	if g.wide && k <= 2 && g.rng.Intn(10) == 0 {
 		sp.TagVIP = 1 + g.rng.Intn(3)
 	}
-	if g.wide && k == 0 && g.rng.Intn(8) == 0 {
+	if (g.wide && k == 0 && g.rng.Intn(8) == 0) || (g.destInst && k == 0 && g.rng.Intn(12) == 0) {
 		sp.Name = extName // the destination's name is also registered as a service
 	}
 	return sp
@@ -2213,7 +2221,7 @@ func (g *gen) conf() *Conf {
 		return c
 	case 2:
 		// a destination is an external service: never a name that is also registered in the catalog
-		if g.wide && g.rng.Intn(3) == 0 {
+		if (g.wide && g.rng.Intn(3) == 0) || (g.destInst && g.rng.Intn(5) == 0) {
 			return &Conf{Kind: structs.ServiceDefaults, Name: g.pick(plainName), Dest: g.rng.Intn(3) > 0}
 		}
 		if g.rng.Intn(2) == 0 {
@@ -2248,7 +2256,7 @@ func (g *gen) next() Cmd {
 		}
 		r -= weights[k]
 	}
-	if g.wide && g.rng.Intn(20) == 0 {
+	if (g.wide && g.rng.Intn(20) == 0) || (g.destInst && g.rng.Intn(30) == 0) {
 		c.Kind, c.Key, c.Value = "sysmeta", structs.SystemMetadataVirtualIPsEnabled, "true"
 		if g.rng.Intn(2) == 0 {
 			c.Value = ""
@@ -2315,6 +2323,9 @@ func (g *gen) next() Cmd {
 			}
 		case 3:
 			c.CheckID = g.pick(checkIDs)
+		}
+		if c.SvcID != "" && g.rng.Intn(10) == 0 {
+			c.CheckID = g.pick(checkIDs) // both ids: the service goes, the check id is ignored
 		}
 	case 2:
 		c.Kind = "txn"
@@ -2591,6 +2602,28 @@ func panicked(h *History) bool {
 
 func sigOf(f OracleFail) string { return f.Kind + "/" + f.Sub + "/" + f.Cause }
 
+// shrinkTarget: the failure of a history worth shrinking -- the first one outside every excluded class (at most
+// three histories per signature and stream), else the first one (one history per signature and stream, as an
+// illustration of the open finding)
+func shrinkTarget(h *History, stream string, done map[string]int) (string, bool) {
+	if len(h.Oracle) == 0 {
+		return "", false
+	}
+	f, limit := h.Oracle[0], 1
+	for _, x := range h.Oracle {
+		if x.Cause == "" {
+			f, limit = x, 3
+			break
+		}
+	}
+	key := stream + "/" + sigOf(f)
+	if done[key] >= limit {
+		return "", false
+	}
+	done[key]++
+	return sigOf(f), true
+}
+
 // shrink: delta debugging over the command list, keeping the first failure's class
 func shrink(cmds []Cmd, sig string) []Cmd {
 	fails := func(cs []Cmd) bool {
@@ -2726,14 +2759,12 @@ func main() {
 	for i := 0; i < n; i++ {
 		mix := mixes[i%len(mixes)]
 		ln := 3 + rng.Intn(28)
-		g := &gen{rng: rand.New(rand.NewSource(rng.Int63())), mix: mix, model: true}
+		g := &gen{rng: rand.New(rand.NewSource(rng.Int63())), mix: mix, model: true, destInst: i%4 == 3}
 		pre := preamble(rng.Intn(8) > 0)
 		h := runScript(i, mix, pre, g, len(pre)+ln)
 		h.Model = !panicked(&h)
-		if len(h.Oracle) > 0 && !*noShrink {
-			sig := sigOf(h.Oracle[0])
-			if shrunkSigs[sig] < 3 {
-				shrunkSigs[sig]++
+		if !*noShrink {
+			if sig, ok := shrinkTarget(&h, "model", shrunkSigs); ok {
 				h.Shrunk = shrink(h.Cmds, sig)
 			}
 		}
@@ -2744,7 +2775,7 @@ func main() {
 
 	// ---- the oracle-only peer stream: the same mixes, two registrations/deregistrations in five carry a peer
 	// name (rows imported from a peer; outside the Coq model, which has no peers)
-	np := n / 3
+	np := n / 4
 	prng := rand.New(rand.NewSource(*seed + 104729))
 	for i := 0; i < np; i++ {
 		mix := mixes[i%len(mixes)]
@@ -2754,11 +2785,9 @@ func main() {
 		h := runScript(2*n+i, mix, pre, g, len(pre)+ln)
 		h.Mix = "peer:" + mix
 		h.Model = false
-		if len(h.Oracle) > 0 && !*noShrink {
-			sig := "peer/" + sigOf(h.Oracle[0])
-			if shrunkSigs[sig] < 3 {
-				shrunkSigs[sig]++
-				h.Shrunk = shrink(h.Cmds, sigOf(h.Oracle[0]))
+		if !*noShrink {
+			if sig, ok := shrinkTarget(&h, "peer", shrunkSigs); ok {
+				h.Shrunk = shrink(h.Cmds, sig)
 			}
 		}
 		j, _ := json.Marshal(&h)
@@ -2767,7 +2796,7 @@ func main() {
 	}
 
 	// ---- the oracle-only wide stream: parts of the command universe the Coq model's generator stays out of
-	nw := n / 3
+	nw := n / 4
 	wrng := rand.New(rand.NewSource(*seed + 1299709))
 	for i := 0; i < nw; i++ {
 		mix := mixes[i%len(mixes)]
@@ -2777,11 +2806,9 @@ func main() {
 		h := runScript(3*n+i, mix, pre, g, len(pre)+ln)
 		h.Mix = "wide:" + mix
 		h.Model = false
-		if len(h.Oracle) > 0 && !*noShrink {
-			sig := "wide/" + sigOf(h.Oracle[0])
-			if shrunkSigs[sig] < 3 {
-				shrunkSigs[sig]++
-				h.Shrunk = shrink(h.Cmds, sigOf(h.Oracle[0]))
+		if !*noShrink {
+			if sig, ok := shrinkTarget(&h, "wide", shrunkSigs); ok {
+				h.Shrunk = shrink(h.Cmds, sig)
 			}
 		}
 		j, _ := json.Marshal(&h)
@@ -2791,7 +2818,7 @@ func main() {
 
 	// ---- the oracle-only stream: the same mixes over the mixed-case universe (outside the Coq model,
 	// which compares names exactly): every oracle clause after every command, shrinking, no model comparison
-	nc := n / 3
+	nc := n / 4
 	crng := rand.New(rand.NewSource(*seed + 7919))
 	setUniverse(caseUniverse)
 	for i := 0; i < nc; i++ {
@@ -2802,11 +2829,9 @@ func main() {
 		h := runScript(n+i, mix, pre, g, len(pre)+ln)
 		h.Mix = "case:" + mix
 		h.Model = false
-		if len(h.Oracle) > 0 && !*noShrink {
-			sig := "case/" + sigOf(h.Oracle[0])
-			if shrunkSigs[sig] < 3 {
-				shrunkSigs[sig]++
-				h.Shrunk = shrink(h.Cmds, sigOf(h.Oracle[0]))
+		if !*noShrink {
+			if sig, ok := shrinkTarget(&h, "case", shrunkSigs); ok {
+				h.Shrunk = shrink(h.Cmds, sig)
 			}
 		}
 		j, _ := json.Marshal(&h)
